@@ -426,6 +426,8 @@ def persist_units(c0):
         (b'D3S0R9', [mv_('D', 3)], True),
         (b'F2QU9', [mv_('F', 2)], True),
         (b'C%dL2S-1' % c0, [gml.colour(c0), mv_('L', 2)], True),
+        # not a DRAW statement: CLS puts the pen back at the centre and the scale back to 4 (the colour is set again)
+        (b'@CLS', [], False),
     ]
 
 
@@ -449,9 +451,18 @@ def work_persist(shard):
                 part.n += 1
                 part.traces += 1
                 bad = None
+                start_pixel = {(sx, sy): rig.c0}
                 for k, i in enumerate(seq):
                     text, prims, fails = units[i]
-                    r = H.run(g.s, b'DRAW "%s"' % text)
+                    if text == b'@CLS':
+                        g.must(b'CLS')
+                        r = H.run(g.s, b'DRAW "C%d"' % rig.c0)
+                        pen.x, pen.y = g.w // 2, g.h // 2
+                        pen.scale, pen.colour = 4, rig.c0
+                        del pen.segments[:]
+                        start_pixel = {}
+                    else:
+                        r = H.run(g.s, b'DRAW "%s"' % text)
                     pen.run(prims)
                     if r.exc is not None:
                         bad = ('persist/host-exception/' + H.exc_key(r.exc), repr(r.exc))
@@ -469,7 +480,7 @@ def work_persist(shard):
                         break
                 actual = rig._collect(g)
                 if bad is None:
-                    exp = {(sx, sy): rig.c0}
+                    exp = dict(start_pixel)
                     for (x0, y0, x1, y1, col) in pen.segments:
                         for p_ in rig.lineset(x0, y0, x1, y1):
                             exp[p_] = col
